@@ -140,9 +140,20 @@ def independent(cx, w, r, recv, arg, op, inp, la, lb):
 
 
 def run_pair_ops(cx: Ctx, A, B):
-    for op, oracle in BINOPS.items():
+    variants = [(op, oracle, False) for op, oracle in BINOPS.items()]
+    if set(A) & set(B):
+        # the right operand holds its OWN Dimension objects for the shared letters (same letter and name, fewer items - e.g. the
+        # dims of an array over part of the items): the left set's dimensions are the ones that stay
+        variants += [(op, oracle, True) for op, oracle in BINOPS.items() if op in ("__or__", "union_with", "__and__", "intersect_with", "__sub__")]
+    for op, oracle, own in variants:
         w = World(cx.prog)
-        a, b = w.dimset(A), w.dimset(B)
+        a = w.dimset(A)
+        if own:
+            from ..interp import ItemList as _IL
+            mine = {l: w.it.construct(w.Dimension, [], dict(name=l * 2, letter=l, items=_IL(w.items(l)[:2]))) for l in B if l in A}
+            b = w.dimset(B, mine)
+        else:
+            b = w.dimset(B)
         for s in (a, b):      # history: operands have been queried before (lookup caches, if any, are warm)
             warm(w, s)
         la, lb = a.f["dim_list"], b.f["dim_list"]
@@ -151,6 +162,8 @@ def run_pair_ops(cx: Ctx, A, B):
         cx.rep.evaluations += 1
         exp = oracle(A, B)
         inp = {"op": op, "self": list(A), "other": list(B)}
+        if own:
+            inp["other_holds_own_shorter_dimensions_for"] = [l for l in B if l in A]
         if exp == "RAISE":
             cx.ob("C14.operator-result", kind == "raise", op, inp, f"overlapping sets were not refused (got {kind})")
         elif kind != "ok" or not isinstance(r, Obj):
@@ -258,6 +271,23 @@ def run_mutators(cx: Ctx, A):
                     if ok:
                         lookups(cx, w, r, exp, name, inp)
                         independent(cx, w, r, a, None, name, inp, la, None)
+    # replace by NAME where the name happens to contain the letter of another dimension of the set, with which the new one clashes
+    if len(A) >= 2:
+        for inplace in (False, True):
+            w = World(cx.prog)
+            from ..interp import ItemList as _IL
+            named = [w.it.construct(w.Dimension, [], dict(name="dim " + "".join(A) + " " + l, letter=l, items=_IL(w.items(l)))) for l in A]
+            a = w.it.construct(w.DimensionSet, [], dict(dim_list=list(named)))
+            warm(w, a)
+            clash = w.it.construct(w.Dimension, [], dict(name="newcomer", letter=A[1], items=_IL(w.items(A[1]))))
+            snaps = w.snap(a)
+            key = named[0].f["name"]
+            kind, r = run_guarded(lambda: w.it.call_method(a, "replace", key, clash, inplace=inplace))
+            cx.rep.evaluations += 1
+            inp = {"op": "replace", "self": list(A), "key": key, "new_letter": A[1], "inplace": inplace}
+            cx.ob("C14.clash-rejected", kind == "raise", "replace", inp, f"a second dimension with letter '{A[1]}' was accepted ({kind})")
+            ch = w.changed(snaps)
+            cx.ob("C14.rejected-call-changes-nothing", not ch, "replace", inp, "; ".join(ch))
     # a list of dimensions whose clash is not the first element: nothing may be added before the refusal
     if A:
         fresh = [l for l in alpha if l not in A][:1]
